@@ -221,14 +221,21 @@ def run(ctx):
             planted = plant(rng, top, p0, rng.randrange(2, 10))
             X = np.array([(planted if rng.random() < 0.6 else p0) + np.array([[rng.gauss(0, 1) for _ in range(3)] for _ in range(len(p0))]) * rng.choice([0, 0, 0.003]) for _ in range(nfr)])
             protein_names = PROTEIN
-        X = (np.round(X * 4096) / 4096).astype(np.float32)
         nfr, n = X.shape[0], X.shape[1]
-        t = md.Trajectory(X.copy(), top)
         periodic = (not use_real) and rng.random() < 0.35
         box = None
         if periodic:
             kind, b = cells(rng)
-            t.unitcell_vectors = np.tile((b * 1.5)[None], (nfr, 1, 1))
+            b = (b * 1.5).astype(np.float64)
+            # per-atom lattice shifts: covalent bonds and hydrogen bonds straddle cell faces, as in per-atom wrapped coordinates
+            for f in range(nfr):
+                for a in range(n):
+                    if rng.random() < 0.5:
+                        X[f, a] = X[f, a] + np.array([rng.randrange(-1, 2) for _ in range(3)]) @ b
+        X = (np.round(X * 4096) / 4096).astype(np.float32)
+        t = md.Trajectory(X.copy(), top)
+        if periodic:
+            t.unitcell_vectors = np.tile(b[None], (nfr, 1, 1))
             box = t.unitcell_vectors[0].astype(np.float64)
         X64 = X.astype(np.float64)
         desc = dict(source="real" if use_real else "synthetic", n_atoms=n, n_residues=top.n_residues, frames=nfr, periodic=periodic)
